@@ -93,7 +93,8 @@ Handed == [i \in 1..Len(Ev.fp) |->
 TDeliver ==
   /\ IsEv("Decode") /\ phase = "flight" /\ ~lost
   /\ wire' = Handed /\ altered' = (altered \/ Handed # orig) /\ phase' = "consume"
-  /\ UNCHANGED <<pstreams, nextId, batchId, orig, bsig, cstreams, pos, got, res, nfaults, gapped, judged, ann, retiredIds, l, lost, kh>>
+  /\ judged' = (judged /\ ~(altered /\ Handed # orig))
+  /\ UNCHANGED <<pstreams, nextId, batchId, orig, bsig, cstreams, pos, got, res, nfaults, gapped, ann, retiredIds, l, lost, kh>>
 
 TSilent == ~lost /\ (ConsumeStep \/ Finish) /\ UNCHANGED <<l, lost, kh>>
 
